@@ -176,7 +176,10 @@ def r3_defines_are_integers(ctx: Ctx) -> None:
     bad = [(t, pol) for t, pol in conds if "defines" in t and ((t.endswith(".defines") and not pol) or (t.endswith(".defines is None") and pol))]
     ctx.check(not bad, "cli_main:-D guard", f"definitions are processed when -D was given (the guard must not be inverted); conditions {sorted(conds)}")
     loops = [n for n in walk_no_nested(cli.node) if isinstance(n, ast.For) and any(x is adds[0] for x in ast.walk(n))]
-    ctx.check(len(loops) == 1 and unparse(loops[0].iter).endswith(".defines"), "cli_main:-D loop", "every NAME=VALUE given is defined (a loop over args.defines)")
+    it_d = loops[0].iter if len(loops) == 1 else None
+    if isinstance(it_d, ast.BoolOp) and isinstance(it_d.op, ast.Or) and len(it_d.values) == 2 and isinstance(it_d.values[1], (ast.Tuple, ast.List)) and not it_d.values[1].elts:
+        it_d = it_d.values[0]  # `args.defines or ()`: the same list, nothing when the option is absent
+    ctx.check(it_d is not None and unparse(it_d).endswith(".defines"), "cli_main:-D loop", "every NAME=VALUE given is defined (a loop over args.defines)")
     ctx.count("define_facts", 6)
 
 
